@@ -35,6 +35,7 @@ struct Witness {
     /// clause only binds when nothing at all differed.
     cur_passes: Vec<(u8, u8)>,
     pass_rotations: Vec<Vec<(u8, u8)>>,
+    last_pass: Option<(u8, u8)>,
     ever_in_ring: bool,
 }
 
@@ -52,6 +53,10 @@ impl Witness {
             }
             self.cur_passes.push((sa, da));
         }
+        // a repeated pass (the sender retries) that closes a rotation closes it as a copy of the
+        // previous one: this is how the station's own verification reads it
+        let repeated = self.last_pass == Some((sa, da));
+        self.last_pass = Some((sa, da));
         if da <= sa {
             if self.started {
                 self.pass_rotations.push(std::mem::take(&mut self.cur_passes));
@@ -59,6 +64,11 @@ impl Witness {
                     self.pass_rotations.remove(0);
                 }
                 let mut r = std::mem::take(&mut self.cur);
+                if repeated {
+                    if let Some(prev) = self.rotations.last() {
+                        r = prev.clone();
+                    }
+                }
                 r.sort();
                 self.rotations.push(r);
                 if self.rotations.len() > 4 {
@@ -75,8 +85,13 @@ impl Witness {
         let Some(last) = self.rotations.last() else { return 0 };
         self.rotations.iter().rev().take_while(|r| *r == last).count()
     }
-    fn identical_tail_strict(&self) -> usize {
+    fn identical_tail_strict(&self, ts: u8) -> usize {
         let Some(last) = self.pass_rotations.last() else { return 0 };
+        // a ring that passes the token to the listener itself (which never forwards it) is not a
+        // rotation the listener can verify
+        if last.iter().any(|(sa, da)| *da == ts || *sa == ts) {
+            return 0;
+        }
         self.pass_rotations.iter().rev().take_while(|r| *r == last).count()
     }
     fn predecessor_of(&self, ts: u8) -> Option<u8> {
@@ -123,6 +138,9 @@ struct St {
     last_pass_to_self: bool,
     /// Poll time of the last valid telegram consumed / end of the last own transmission.
     last_valid_activity: u64,
+    /// Since it last went online the station has witnessed two identical token rotations or has
+    /// claimed the token: only then can it be a member of the ring ("not ready until ...").
+    verified: bool,
 }
 
 pub struct GapMonitor {
@@ -168,6 +186,7 @@ impl GapMonitor {
                     token_to_me_since_pass: false,
                     last_pass_to_self: false,
                     last_valid_activity: 0,
+                    verified: false,
                 })
                 .collect(),
             holder: None,
@@ -216,6 +235,7 @@ impl Monitor for GapMonitor {
             s.awaiting = None;
             s.next_token_to = None;
             s.witness.reset();
+            s.verified = false;
             s.asked_by = None;
             s.must_reply_by = None;
             s.holding = false;
@@ -230,7 +250,9 @@ impl Monitor for GapMonitor {
         let i = p.st;
         let ts = w.stations[i].cfg.addr;
         self.st[i].pre_in_ring = p.pre.in_ring;
-        if p.post.in_ring {
+        // (in the ring before this poll: the poll that answers 'ready' already shows the station
+        // as a member afterwards)
+        if p.pre.in_ring {
             self.st[i].witness.ever_in_ring = true;
         }
         // deadline for answering a status request
@@ -258,6 +280,9 @@ impl Monitor for GapMonitor {
             if let Frame::Token { da, sa } = frame {
                 if !p.pre.in_ring && *sa != ts {
                     self.st[i].witness.pass(*sa, *da);
+                    if self.st[i].witness.identical_tail() >= 2 {
+                        self.st[i].verified = true;
+                    }
                 }
                 if *da == ts && *sa != ts && *last && p.pre.in_ring {
                     // a new token visit may begin (the token may also hide inside a transmission
@@ -360,6 +385,7 @@ impl Monitor for GapMonitor {
                     // (two claim tokens, the GAP scan, then the first regular pass).
                     let silence = tx.start.saturating_sub(s.last_valid_activity);
                     if *da == ts && silence + tol >= timeout {
+                        s.verified = true;
                         s.claim_phase = true;
                         s.claim_tokens = 0;
                         s.epoch_ns = None;
@@ -535,35 +561,46 @@ impl Monitor for GapMonitor {
                     // "in ring" only if it is in the ring
                     if !s.pre_in_ring {
                         w.violate(self.prop, "status.truth", "in-ring-while-listening", Some(ts), format!("#{ts} reports 'master in ring' to #{da} but is_in_ring() is false"));
+                    } else if !s.verified {
+                        w.violate(
+                            self.prop,
+                            "status.truth",
+                            "in-ring-before-two-identical-rotations",
+                            Some(ts),
+                            format!(
+                                "#{ts} reports 'master in ring' to #{da}, but since it last went online it has neither claimed the token nor witnessed two identical token rotations (witnessed: {:?})",
+                                s.witness.rotations
+                            ),
+                        );
                     }
                 }
                 2 => {
                     if !s.witness.ever_in_ring {
-                        if s.witness.identical_tail() < 2 {
+                        // two identical rotations witnessed at some point since it went online (the
+                        // list is kept up to date pass by pass afterwards), or the token claimed
+                        if !s.verified {
                             w.violate(
                                 self.prop,
                                 "status.truth",
                                 "ready-before-two-identical-rotations",
                                 Some(ts),
                                 format!(
-                                    "#{ts} reports 'ready to enter the ring' to #{da} after witnessing only {} identical complete token rotation(s): {:?}",
-                                    s.witness.identical_tail(),
+                                    "#{ts} reports 'ready to enter the ring' to #{da} although it has not witnessed two identical complete token rotations since it went online (last rotations: {:?})",
                                     s.witness.rotations
                                 ),
                             );
                             return;
                         }
-                        if let Some(pred) = s.witness.predecessor_of(ts) {
-                            if pred != *da {
-                                w.violate(
-                                    self.prop,
-                                    "status.truth",
-                                    "ready-to-non-predecessor",
-                                    Some(ts),
-                                    format!("#{ts} reports 'ready' to #{da} but its predecessor in the witnessed ring {:?} is #{pred}", s.witness.rotations.last()),
-                                );
-                                return;
-                            }
+                        // only to the predecessor it has registered
+                        if snap.ps != *da {
+                            w.violate(
+                                self.prop,
+                                "status.truth",
+                                "ready-to-non-predecessor",
+                                Some(ts),
+                                format!("#{ts} reports 'ready' to #{da} but its registered predecessor is #{}", snap.ps),
+                            );
+                            return;
                         }
                     }
                 }
@@ -573,7 +610,7 @@ impl Monitor for GapMonitor {
                         w.violate(self.prop, "status.truth", "not-ready-while-in-ring", Some(ts), format!("#{ts} is in the ring but reports 'not ready' to #{da}"));
                         return;
                     }
-                    if s.witness.identical_tail_strict() >= 3 && s.witness.predecessor_of(ts) == Some(*da) && !s.witness.ever_in_ring {
+                    if s.witness.identical_tail_strict(ts) >= 3 && s.witness.predecessor_of(ts) == Some(*da) && !s.witness.ever_in_ring {
                         w.violate(
                             self.prop,
                             "status.truth",
